@@ -32,7 +32,8 @@ TRUST = [
 PROPERTIES = {
     "C01": {"lean_module": "CelmaVerif.Props.C01", "kind": "functional", "trusted": TRUST,
             "assumptions": ["claimed for the modelled fragment only", "floating-point destinations are not modelled"]},
-    "C02": {"lean_module": "CelmaVerif.Props.C02", "kind": "relational", "trusted": TRUST,
+    "C02": {"lean_module": "CelmaVerif.Props.C02", "obligation_modules": ["CelmaVerif.Props.C02b"],
+            "kind": "relational", "trusted": TRUST,
             "assumptions": ["claimed for the modelled fragment only"]},
     "C03": {"lean_module": "CelmaVerif.Props.C03", "kind": "functional", "trusted": TRUST,
             "assumptions": ["claimed for the modelled fragment only",
